@@ -211,23 +211,20 @@ inductive Load where
   | ok | err | panic
 deriving DecidableEq, Repr
 
-/-- `cmd = none`: no Cmd in the file; `q`/`fs = none`: field missing (the code dereferences the nil
-    pointer: `*conf.Quality`, `*conf.FlushSize`).  Order of the checks as in the code. -/
+/-- `cmd = none`: no Cmd in the file; `q`/`fs = none`: field missing — reported as an error since fix
+    4bfed1b (before it the code dereferenced the nil pointer and panicked).  Order of the checks as in
+    the code: Cmd, Quality, FlushSize present; command known and Quality in its range; FlushSize in range. -/
 def actionFileCheck (cmd : Option Cmd) (q fs : Option Int) : Load :=
-  match cmd with
-  | none => .err
-  | some .other => .err
-  | some c =>
-    match q with
-    | none => .panic
-    | some qv =>
-      let lo : Int := if c = .gzip then -2 else 0      -- gzip.HuffmanOnly / brotli.BestSpeed
-      let hi : Int := if c = .gzip then 9 else 11      -- gzip.BestCompression / brotli.BestCompression
-      if qv < lo || qv > hi then .err
-      else
-        match fs with
-        | none => .panic
-        | some f => if f < 64 || f > 4096 then .err else .ok
+  match cmd, q, fs with
+  | none, _, _ => .err
+  | some _, none, _ => .err
+  | some _, some _, none => .err
+  | some .other, some _, some _ => .err
+  | some c, some qv, some f =>
+    let lo : Int := if c = .gzip then -2 else 0      -- gzip.HuffmanOnly / brotli.BestSpeed
+    let hi : Int := if c = .gzip then 9 else 11      -- gzip.BestCompression / brotli.BestCompression
+    if qv < lo || qv > hi then .err
+    else if f < 64 || f > 4096 then .err else .ok
 
 /-! ### the filter -/
 
